@@ -236,7 +236,21 @@ impl Sess {
         }
         self.sent_hs = true;
         let m = self.hs_msg();
-        self.send(&m);
+        // a wrong protocol string may also be the right characters under a wrong length byte
+        let odd_len = self.plan.hs == Hs::WrongPstr && world::rng::Rng64::sub(world::rng::hash_name(&self.plan.name) ^ self.sh.seed, "hs-pstr-len").chance(1, 2);
+        if odd_len {
+            let mut raw = Msg::handshake(&self.sh.torrent.info_hash, &{
+                let mut id = [0u8; 20];
+                id.copy_from_slice(&self.plan.id);
+                id
+            })
+            .encode();
+            raw[0] = *world::rng::Rng64::sub(world::rng::hash_name(&self.plan.name) ^ self.sh.seed, "hs-pstr-len-byte").pick(&[20u8, 32, 255, 18]);
+            note(&self.plan.name, format!("tx Handshake with length byte {}", raw[0]));
+            self.send_raw(raw);
+        } else {
+            self.send(&m);
+        }
         self.advertise();
         for m in std::mem::take(&mut self.held) {
             self.send(&m);
